@@ -817,7 +817,7 @@ func main() {
 	res := &result{Hist: map[string]int{}}
 	ks := []int{2, 3, 8, 17, 64}
 	reps := 30
-	roundsPer := 6
+	roundsPer := 10
 	if *tier == "thorough" {
 		ks = []int{2, 3, 4, 5, 8, 13, 17, 32, 48, 64}
 		reps = 60
